@@ -173,6 +173,7 @@ def run_property(prop, tier='quick', seed=0, only_unit=None, verbose=False):
   samples = []
   by_label = {}
   refuted_labels = {}
+  unknown_obs = {}
 
   for ob in all_obs:
     r = results[ob.uid]
@@ -200,9 +201,7 @@ def run_property(prop, tier='quick', seed=0, only_unit=None, verbose=False):
     elif v == 'disagree':
       status['crash'].append("%s: z3 and cvc5 disagree (%s vs %s)" % (ob.label, z[0], r['cvc5'][0]))
     else:
-      status['undecided'].append("%s: %s / %s" % (
-        ob.label, z[0] + ':' + str(z[1].get('reason', z[1].get('error', ''))),
-        (r['cvc5'][0] + ':' + str(r['cvc5'][1].get('error', ''))) if r['cvc5'] else 'cvc5 not run'))
+      unknown_obs.setdefault(ob.label, []).append(ob)
 
   for (s, ok, detail) in syn_results:
     per_backend['ast']['count'] += 1
@@ -217,6 +216,35 @@ def run_property(prop, tier='quick', seed=0, only_unit=None, verbose=False):
         json.dump({'property': prop.pid, 'obligation': s.name, 'kind': 'syntactic',
                    'what': s.what, 'detail': detail, 'native_confirms': None}, f, indent=1)
       violations.append((s.name, path, ' no-failing-input-found'))
+
+  # obligations both solvers left open (typically: the VC is satisfiable but has quantified
+  # hypotheses, so no model is produced).  They are never reported as violations on the solver's
+  # word; but if the unit's native search finds an input of the REAL code that violates the
+  # same clause, that is a confirmed violation.  Otherwise: UNDECIDED.
+  for label, obs in sorted(unknown_obs.items()):
+    ob = obs[0]
+    u = unit_of[id(ob)]
+    r = results[ob.uid]
+    z = r['z3']
+    why = "%s / %s" % (z[0] + ':' + str(z[1].get('reason', z[1].get('error', ''))),
+                       (r['cvc5'][0] + ':' + str(r['cvc5'][1].get('error', ''))) if r['cvc5'] else 'cvc5 not run')
+    out = None
+    if u.replay is not None:
+      try:
+        out = u.replay({}, ob)
+      except Exception as e:
+        out = {'replay_error': repr(e)}
+    if out and out.get('native_confirms'):
+      path = os.path.join(replay_dir, _safe(label) + '.json')
+      with open(path, 'w') as f:
+        json.dump({'property': prop.pid, 'obligation': label, 'unit': ob.unit, 'kind': ob.kind,
+                   'solver_verdict': 'unknown (' + why + ')', 'goal': str(ob.goal)[:2000],
+                   'native_confirms': True, 'replay': out,
+                   'note': 'the solvers produced no model; the failing input was found by the guided native search over the real code'},
+                  f, indent=1, default=str)
+      violations.append((label, path, ''))
+    else:
+      status['undecided'].append("%s: %s (%d instance(s); native search found no failing input)" % (label, why, len(obs)))
 
   # refutations -> replay
   for label, obs in sorted(refuted_labels.items()):
